@@ -34,6 +34,10 @@ CHECKS['C16'] = dict(tech='model-based Hypothesis handshake schedules against pe
              text='Both adapters are stepped in lock-step with reference machines written from the statement in the peer view (beat = VALID and READY on the wires) over generated schedules of start/reset/done/load pulses and back-pressure, all outputs compared before and after every edge, plus invariants (VALID persistence, TDATA stability, sent only after a beat, READY = active, TLAST = TVALID, constant TKEEP); every transition of the 1-bit-data product machine is executed. Exploration; one known finding (load pulse at the ap_done edge) is excluded by construction and replayed.',
              note='Trusted: the reference machines in pbt/props/c16.py; environment assumption of the statement enforced by clearing disallowed ap_done pulses (counted).',
              ref='DESIGN.md 2/C16')
+CHECKS['C20'] = dict(tech='grammar-based Hypothesis command streams with generated producer/consumer handshake timing against a reference decoder/encoder (exact ordered action log + response strings)',
+             text='CMDRequest and CMDResponse are driven with generated well-formed command streams (1..10 hex digits, separators, idle gaps, consumer stalls); the ordered log of one-cycle action pulses with their values, the number of clock pulses, and the response characters collected at valid&ready edges must equal the reference exactly. Exploration (sampled).',
+             note='Trusted: the reference codec in pbt/props/c20.py. Host waits for each response; consumer ready independent of valid; bounded cycle budget for liveness.',
+             ref='DESIGN.md 2/C20')
 NOT_APPLICABLE = {}
 
 def main():
